@@ -1,4 +1,5 @@
 import asyncio
+import codecs
 import enum
 import io
 import json
@@ -750,6 +751,23 @@ class TextIOPayload(IOBasePayload):
             *args,
             **kwargs,
         )
+
+    @property
+    def size(self) -> int | None:
+        """Size of the payload in bytes, if it can be told without reading the file.
+
+        The text is decoded with the file's own encoding and encoded again with
+        the payload's: the size on disk is the size on the wire only if the two
+        are the same.
+        """
+        try:
+            same = (
+                codecs.lookup(self._value.encoding).name
+                == codecs.lookup(self._encoding or "utf-8").name
+            )
+        except (AttributeError, LookupError, TypeError):
+            same = False
+        return super().size if same else None
 
     def _read_and_available_len(
         self, remaining_content_len: int | None
